@@ -202,3 +202,57 @@ Q(name="e2_sendstream_reset", props=["C05"], func=r"streams/mod\.rs:2\d\d:1: [^>
   functions=["SendStream::reset"], pre=reset_pre, post=reset_post, allowed_panics=r"attempt to compute",
   bounds="every StreamsState accounting state; map lookup, Send::reset, Vec::push opaque; the only connection-level counter that may change is unacked_data, by exactly SendBuffer::unacked() of the reset stream",
   replay=("streams_sendstream_reset_native", lambda m: dict(written=5, other_data_sent=100)))
+
+
+# ------------------------------------------------------------------ C01: SendBuffer::poll_transmit, both branches, full width
+def _sb(c, name):
+    return "*_1.%d" % c.field("connection/send_buffer.rs", "SendBuffer", name)
+
+
+def _vlen(x):
+    return ite(ult(x, bv(1 << 6)), bv(1), ite(ult(x, bv(1 << 14)), bv(2), ite(ult(x, bv(1 << 30)), bv(4), bv(8))))
+
+
+def _pm(c):
+    return "call:RangeSet::pop_min(%s)" % _sb(c, "retransmits")
+
+
+def pt_pre(c):
+    offset, unsent, max_len = c.inp(_sb(c, "offset"), BV64), c.inp(_sb(c, "unsent"), BV64), c.inp("_2", BV64)
+    d = c.inp(_pm(c) + "#discr", ("bv", 64, True))
+    lo, hi = c.inp(_pm(c) + "@Some.0.0", BV64), c.inp(_pm(c) + "@Some.0.1", BV64)
+    # what the retransmit queue can hold: non-empty ranges of data that was sent
+    wf = and_(ule(d, bv(1)), imp(eq(d, bv(1)), and_(ult(lo, hi), ule(hi, unsent))))
+    return and_(ult(offset, V62), ule(unsent, offset), "(bvuge %s %s)" % (max_len, bv(17)), ule(max_len, bv(1 << 20)), wf)
+
+
+def pt_post(c, p):
+    offset, unsent, max_len = c.inp(_sb(c, "offset"), BV64), c.inp(_sb(c, "unsent"), BV64), c.inp("_2", BV64)
+    start, end = p.ret(".0.0", BV64), p.ret(".0.1", BV64)
+    enc = p.ret(".1", BOOL)
+    is_some = eq(c.inp(_pm(c) + "#discr", ("bv", 64, True)), bv(1))
+    lo, hi = c.inp(_pm(c) + "@Some.0.0", BV64), c.inp(_pm(c) + "@Some.0.1", BV64)
+    n = "(bvsub %s %s)" % (end, start)
+    off_bytes = ite(eq(start, bv(0)), bv(0), _vlen(start))
+    len_bytes = ite(enc, bv(8), bv(0))
+    fits = ule("(bvadd %s (bvadd %s %s))" % (n, off_bytes, len_bytes), max_len)
+    fills = imp(not_(enc), eq("(bvadd %s %s)" % (n, off_bytes), max_len))
+    reinserted = p.called(r"RangeSet::insert")
+    retx = and_(eq(start, lo), "(bvugt %s %s)" % (end, start), ule(end, hi), eq(p.out(_sb(c, "unsent"), BV64), unsent),
+                # the remainder is re-queued iff the range was cut
+                ("(bvult %s %s)" % (end, hi)) if reinserted else eq(end, hi))
+    fresh = and_(eq(start, unsent), ule(end, offset), "(bvuge %s %s)" % (end, start), eq(p.out(_sb(c, "unsent"), BV64), end),
+                 imp(ult(unsent, offset), "(bvugt %s %s)" % (end, start)), "true" if not reinserted else "false")
+    return and_(fits, fills, ite(is_some, retx, fresh), eq(p.out(_sb(c, "offset"), BV64), offset))
+
+
+Q(name="e2_sendbuf_poll_transmit", props=["C01"], func=r"send_buffer\.rs[^>]*>::poll_transmit$",
+  inline=[r"VarInt::size$", r"VarInt::from_u64_unchecked$"], pure=[r"RangeSet::pop_min"],
+  modifies=lambda c: {r"RangeSet::insert": [_sb(c, "retransmits")]},
+  functions=["SendBuffer::poll_transmit", "VarInt::size"], pre=pt_pre, post=pt_post,
+  bounds="every buffer state unsent <= offset < 2^62, 17 <= max_len <= 2^20, retransmit queue head = None or any non-empty range below `unsent` (RangeSet::pop_min / insert opaque)",
+  replay=("sendbuf_poll_transmit_retransmit_native", lambda m: dict(
+      offset=m.get("|in:*_1.2|", 0), unsent=m.get("|in:*_1.3|", 0), max_len=m.get("|in:_2|", 17),
+      has_range=1 if any(k.endswith("#discr|") and "pop_min" in k and v == 1 for k, v in m.items()) else 0,
+      lo=next((v for k, v in m.items() if "pop_min" in k and k.endswith("@Some.0.0|")), 0),
+      hi=next((v for k, v in m.items() if "pop_min" in k and k.endswith("@Some.0.1|")), 0))))
